@@ -174,6 +174,76 @@ def discover(facts):
             [f for f in ds if _out(f) == "bool" and len(ins(f)) == 1 and ins(f)[0].startswith("std::option::Option<") and "Instant" in ins(f)[0]])
     pick_fn("deadline_support::duration_to_deadline",
             [f for f in ds if _out(f).startswith("std::option::Option<") and "Instant" in _out(f) and len(ins(f)) == 1 and "Duration" in ins(f)[0]])
+    # --- types.rs: the pub(crate) shift/grow/shrink helpers of DiffOp, recognised by their net effect on the op
+    try:
+        out += _diffop_helpers(facts, fns, spaths)
+    except Exception:
+        pass
+    # --- myers.rs: split_at
+    pick_fn("algorithms::myers::split_at", [f for f in my if _out(f) == "(std::ops::Range<usize>,std::ops::Range<usize>)"])
+    # --- udiff.rs: the missing-newline marker
+    def one_bool(a):
+        v = adts[a]["variants"]
+        return len(v) == 1 and len(v[0]["fields"]) == 1 and v[0]["fields"][0]["ty_str"] == "bool"
+    pick_ty("udiff::MissingNewlineHint",
+            [a for a in adts if a.startswith("udiff::") and a.count("::") == 1 and adts[a]["kind"] == "struct" and one_bool(a) and
+             any((i.get("trait") or {}).get("path") == "std::fmt::Display" and (i.get("self_ty") or {}).get("path") == a for i in impls)])
+    return out
+
+
+_ADJ = {
+    # canonical name -> ((start sign, uses amount), (len sign, uses amount))
+    "shift_left": ("-", None), "shift_right": ("+", None), "grow_left": ("-", "+"), "grow_right": (None, "+"),
+    "shrink_left": (None, "-"), "shrink_right": ("+", "-"),
+}
+
+
+def _diffop_helpers(facts, fns, spaths):
+    """Inherent `&mut self, usize` methods of DiffOp whose net effect on (start, length) is one of the six helper
+    effects but whose name is not the canonical one."""
+    from .facts import Program
+    from . import neteffect
+    missing = [n for n in _ADJ if "types::DiffOp::" + n not in spaths]
+    out = []
+    cands = [f for f in fns if f.get("impl") and not f["impl"].get("trait") and (f["impl"].get("self_ty") or {}).get("path") == "types::DiffOp"
+             and f.get("mir") and f["mir"].get("arg_count") == 2]
+    if "types::DiffOp::is_empty" not in spaths:
+        be = [f for f in fns if f.get("impl") and not f["impl"].get("trait") and (f["impl"].get("self_ty") or {}).get("path") == "types::DiffOp"
+              and f.get("mir") and f["mir"].get("arg_count") == 1 and _out(f) == "bool"]
+        if len(be) == 1:
+            out.append((_short(be[0]["path"]), "types::DiffOp::is_empty"))
+    if not missing:
+        return out
+    tmp = dict(facts)
+    tmp["_renamed"] = []
+    prog = Program(tmp)
+    found = {}
+    for f in cands:
+        sp = _short(f["path"])
+        if sp.rsplit("::", 1)[-1] in _ADJ:
+            continue
+        fn = prog.fn(f["path"])
+        if fn is None or not fn.mir:
+            continue
+        eff, _notes = neteffect.net_effects(prog, fn, "types::DiffOp")
+        if not eff:
+            continue
+        def sign(fields):
+            ss = set()
+            for k, v in eff.items():
+                if k[1] in fields:
+                    for op, amt in v:
+                        if op in ("+", "-") and amt == ("K", 0):
+                            continue
+                        ss.add(op if amt == ("P", 1) else "?")
+            return None if not ss else (list(ss)[0] if len(ss) == 1 else "?")
+        sig = (sign(("old_index", "new_index")), sign(("len", "old_len", "new_len")))
+        for name, want in _ADJ.items():
+            if name in missing and sig == want:
+                found.setdefault(name, []).append(sp)
+    for name, sps in found.items():
+        if len(sps) == 1:
+            out.append((sps[0], "types::DiffOp::" + name))
     return out
 
 
